@@ -369,20 +369,19 @@ Definition nonce_ok (fixed : bool) (c : conn) (nmode : Z) : bool :=
   else if nmode =? 1 then negb (c_rot c)
   else false.
 
-Definition digest_check (fixed : bool) (t : utable) (c : conn) (cr : cred) : option bytes * conn * bool :=
-  let keep := set_nonce c (c_rot c) false in
+Definition digest_check (fixed : bool) (t : utable) (c : conn) (cr : cred) : option bytes * bool :=
   match cr with
-  | CNone => (None, keep, false)
+  | CNone => (None, false)
   | CDigest user secret nmode bmode =>
       match user with
-      | [] => (None, keep, false)
+      | [] => (None, false)
       | _ =>
         match find_user t user with
-        | None => (None, keep, false)
+        | None => (None, false)
         | Some u =>
             if nonce_ok fixed c nmode && (bmode =? 0) && bytes_eqb secret (u_pw u)
-            then (Some (u_name u), keep, false)
-            else (None, set_nonce c true true, true)      (* s.nonce = NewID().MD5() *)
+            then (Some (u_name u), false)
+            else (None, true)      (* s.nonce = NewID().MD5() *)
         end
       end
   end.
@@ -486,100 +485,121 @@ Definition put_conn (s : state) (k : nat) (c : conn) (r : registry) (n : Z) : st
 
 Definition seq_name (seq : Z) : bytes := [48 + seq].   (* the harness's sequence numbers stand for themselves *)
 
-(* one event *)
+(* one event, by kind *)
+Definition step_login (s : state) (name pw : bytes) : state * obs :=
+  match name, pw with
+  | [], _ => (s, ob 403 0 false 0)
+  | _, [] => (s, ob 403 0 false 0)
+  | _, _ =>
+    match find_user (users s) name with
+    | Some u => if bytes_eqb pw (u_pw u) then (new_token s (u_name u), ob 200 0 false 0)
+                else (s, ob 403 0 false 0)
+    | None => (s, ob 403 0 false 0)
+    end
+  end.
+
+Definition step_refresh (s : state) (t : tokv) : state * obs :=
+  if is_none t then (s, ob 401 0 false 0)
+  else let '(s1, ok) := refresh s t in (s1, ob (if ok then 200 else 401) 0 false 0).
+
+Definition step_rtsp (fixed : bool) (watch : list bytes) (s : state) (k : nat) (m : Z) (path : bytes) (cr : cred)
+  : state * obs :=
+  let c := get_conn s k in
+  if negb (c_kind c =? K_RTSP) then (s, with_reg (ob (-1) 0 false 0) watch (reg s))
+  else if negb (legal (c_status c) m) then
+    (put_conn s k (set_nonce c (c_rot c) false) (reg s) (ctr s), with_reg (ob 455 0 false 0) watch (reg s))
+  else
+    match digest_check fixed (users s) c cr with
+    | (None, rot) =>
+        (* a wrong response retires the nonce; a refused request does not stop what the session is sending *)
+        let c1 := if rot then set_nonce c true true else set_nonce c (c_rot c) false in
+        (put_conn s k c1 (reg s) (ctr s + (if rot then 1 else 0)),
+         with_reg (ob 401 0 ((m =? M_PLAY) && (c_status c =? 2) && flowing (reg s) c) 0) watch (reg s))
+    | (Some uname, _) =>
+        let '(c2, code, pub) := rtsp_handle false (perm_go (users s) uname) (reg s) (2 + Z.of_nat k) c m path in
+        let r2 := match pub with Some p => reg_put (reg s) p (2 + Z.of_nat k) | None => reg s end in
+        (put_conn s k (set_nonce c2 (c_rot c) false) r2 (ctr s),
+         with_reg (ob code 0 ((m =? M_PLAY) && (c_status c2 =? 2) && flowing r2 c2) 0) watch r2)
+    end.
+
+Definition step_wsopen (fixed : bool) (s : state) (kind : Z) (path : bytes) (t : tokv) (chan : nat) : state * obs :=
+  let '(code, uname) := stream_gate fixed s t path None in
+  if negb (code =? 200) then
+    (if (kind =? 0) || (kind =? 1)
+     then set_conns s (conns s ++ [dead_conn]) (reg s) (ctr s) else s, ob code 0 false 0)
+  else if kind =? 0 then
+    (* newSession draws the session id and the nonce *)
+    (set_conns s (conns s ++ [conn0 K_WSRTSP uname path]) (reg s) (ctr s + 2), ob 101 0 false (ctr s + 1))
+  else if kind =? 1 then
+    (* INIT: channel id, then the session id *)
+    (set_conns s (conns s ++ [conn0 K_WSP uname path]) (reg s) (ctr s + 2), ob 101 200 false (ctr s + 1))
+  else if kind =? 2 then
+    let c := get_conn s chan in
+    if (c_kind c =? K_WSP) &&
+       (negb fixed || (bytes_eqb path (c_wspath c) && bytes_eqb uname (c_user c)))
+    then (put_conn s chan (set_data c true) (reg s) (ctr s),
+          ob 101 200 ((c_status c =? 2) && flowing (reg s) c) 0)
+    else (s, ob 101 404 false 0)
+  else
+    (s, ob 101 0 (match live (reg s) path with Some _ => true | None => false end) 0).
+
+Definition step_wsrtsp (fixed : bool) (watch : list bytes) (s : state) (k : nat) (m : Z) (path : bytes) : state * obs :=
+  let c := get_conn s k in
+  if negb (c_kind c =? K_WSRTSP) then (s, with_reg (ob (-1) 0 false 0) watch (reg s))
+  else if negb (legal (c_status c) m) then (s, with_reg (ob 455 0 false 0) watch (reg s))
+  else
+    let pm := if fixed then perm_go (users s) (c_user c) else (fun _ _ => true) in
+    let '(c2, code, pub) := rtsp_handle true pm (reg s) (2 + Z.of_nat k) c m path in
+    let r2 := match pub with Some p => reg_put (reg s) p (2 + Z.of_nat k) | None => reg s end in
+    (put_conn s k c2 r2 (ctr s),
+     with_reg (ob code 0 ((m =? M_PLAY) && (c_status c2 =? 2) && flowing r2 c2) 0) watch r2).
+
+Definition step_wsp (fixed : bool) (s : state) (k : nat) (m : Z) : state * obs :=
+  let c := get_conn s k in
+  if negb (c_kind c =? K_WSP) then (s, ob (-1) 0 false 0)
+  else
+    let '(c2, code) := wsp_handle fixed (perm_go (users s) (c_user c)) (reg s) c m in
+    (put_conn s k c2 (reg s) (ctr s),
+     ob code 0 ((m =? M_PLAY) && (c_status c2 =? 2) && c_data c2 && flowing (reg s) c2) 0).
+
+Definition step_http (fixed : bool) (s : state) (kind : Z) (path : bytes) (t : tokv) (seq : Z) : state * obs :=
+  let '(code, _) := stream_gate fixed s t path (if kind =? 2 then Some (seq_name seq) else None) in
+  if negb (code =? 200) then (s, ob code 0 false 0)
+  else match live (reg s) path with
+       | None => (s, ob 404 0 false 0)
+       | Some o =>
+           (* only the pre-published streams have a primed playlist: a stream published a moment ago
+              answers 400 for the playlist (after waiting for segments) and 404 for any segment *)
+           if (kind =? 1) && negb (o =? 1) then (s, ob 400 0 false 0)
+           else if (kind =? 2) && (negb (o =? 1) || negb (seg_listed seq)) then (s, ob 404 0 false 0)
+           else (s, ob 200 0 true 0)
+       end.
+
+Definition step_api (s : state) (ep : Z) (t : tokv) (u : user) (upd_pw : bool) (name : bytes) : state * obs :=
+  let code := api_gate s ep t in
+  let s1 := if code =? 2 then
+              (if ep =? EP_SAVE_USER then set_users s (save_user (users s) u upd_pw)
+               else if ep =? EP_DEL_USER then set_users s (del_user (users s) name)
+               else s)
+            else s in
+  (s1, ob code 0 false 0).
+
 Definition step_gen (fixed : bool) (watch : list bytes) (s : state) (ev : event) : state * obs :=
   match ev with
   | ESave u upd_pw => (set_users s (save_user (users s) u upd_pw), ob 0 0 false 0)
   | EDel name => (set_users s (del_user (users s) name), ob 0 0 false 0)
   | ETick dt => (set_now s (now s + dt), ob 0 0 false 0)
-  | ELogin name pw =>
-      match name, pw with
-      | [], _ => (s, ob 403 0 false 0)
-      | _, [] => (s, ob 403 0 false 0)
-      | _, _ =>
-        match find_user (users s) name with
-        | Some u => if bytes_eqb pw (u_pw u) then (new_token s (u_name u), ob 200 0 false 0)
-                    else (s, ob 403 0 false 0)
-        | None => (s, ob 403 0 false 0)
-        end
-      end
-  | ERefresh t =>
-      if is_none t then (s, ob 401 0 false 0)
-      else let '(s1, ok) := refresh s t in (s1, ob (if ok then 200 else 401) 0 false 0)
+  | ELogin name pw => step_login s name pw
+  | ERefresh t => step_refresh s t
   | ERtspOpen =>
       (* newSession draws the session id and the nonce *)
       (set_conns s (conns s ++ [conn0 K_RTSP [] []]) (reg s) (ctr s + 2), ob 0 0 false (ctr s + 1))
-  | ERtsp k m path cr =>
-      let c := get_conn s k in
-      if negb (c_kind c =? K_RTSP) then (s, with_reg (ob (-1) 0 false 0) watch (reg s))
-      else if negb (legal (c_status c) m) then
-        (put_conn s k (set_nonce c (c_rot c) false) (reg s) (ctr s), with_reg (ob 455 0 false 0) watch (reg s))
-      else
-        match digest_check fixed (users s) c cr with
-        | (None, c1, rot) =>
-            (put_conn s k c1 (reg s) (ctr s + (if rot then 1 else 0)), with_reg (ob 401 0 false 0) watch (reg s))
-        | (Some uname, c1, _) =>
-            let '(c2, code, pub) := rtsp_handle false (perm_go (users s) uname) (reg s) (2 + Z.of_nat k) c1 m path in
-            let r2 := match pub with Some p => reg_put (reg s) p (2 + Z.of_nat k) | None => reg s end in
-            (put_conn s k c2 r2 (ctr s),
-             with_reg (ob code 0 ((m =? M_PLAY) && (code =? 200) && flowing r2 c2) 0) watch r2)
-        end
-  | EWsOpen kind path t chan =>
-      let '(code, uname) := stream_gate fixed s t path None in
-      if negb (code =? 200) then
-        (if (kind =? 0) || (kind =? 1)
-         then set_conns s (conns s ++ [dead_conn]) (reg s) (ctr s) else s, ob code 0 false 0)
-      else if kind =? 0 then
-        (set_conns s (conns s ++ [conn0 K_WSRTSP uname path]) (reg s) (ctr s + 2), ob 101 0 false (ctr s + 1))
-      else if kind =? 1 then
-        (* INIT: channel id, then the session id *)
-        (set_conns s (conns s ++ [conn0 K_WSP uname path]) (reg s) (ctr s + 2), ob 101 200 false (ctr s + 1))
-      else if kind =? 2 then
-        let c := get_conn s chan in
-        if (c_kind c =? K_WSP) &&
-           (negb fixed || (bytes_eqb path (c_wspath c) && bytes_eqb uname (c_user c)))
-        then (put_conn s chan (set_data c true) (reg s) (ctr s),
-              ob 101 200 ((c_status c =? 2) && flowing (reg s) c) 0)
-        else (s, ob 101 404 false 0)
-      else
-        (s, ob 101 0 (match live (reg s) path with Some _ => true | None => false end) 0)
-  | EWsRtsp k m path =>
-      let c := get_conn s k in
-      if negb (c_kind c =? K_WSRTSP) then (s, with_reg (ob (-1) 0 false 0) watch (reg s))
-      else if negb (legal (c_status c) m) then (s, with_reg (ob 455 0 false 0) watch (reg s))
-      else
-        let pm := if fixed then perm_go (users s) (c_user c) else (fun _ _ => true) in
-        let '(c2, code, pub) := rtsp_handle true pm (reg s) (2 + Z.of_nat k) c m path in
-        let r2 := match pub with Some p => reg_put (reg s) p (2 + Z.of_nat k) | None => reg s end in
-        (put_conn s k c2 r2 (ctr s),
-         with_reg (ob code 0 ((m =? M_PLAY) && (code =? 200) && flowing r2 c2) 0) watch r2)
-  | EWsp k m path =>
-      let c := get_conn s k in
-      if negb (c_kind c =? K_WSP) then (s, ob (-1) 0 false 0)
-      else
-        let '(c2, code) := wsp_handle fixed (perm_go (users s) (c_user c)) (reg s) c m in
-        (put_conn s k c2 (reg s) (ctr s),
-         ob code 0 ((m =? M_PLAY) && (code =? 200) && c_data c2 && flowing (reg s) c2) 0)
-  | EHttp kind path t seq =>
-      let '(code, _) := stream_gate fixed s t path (if kind =? 2 then Some (seq_name seq) else None) in
-      if negb (code =? 200) then (s, ob code 0 false 0)
-      else match live (reg s) path with
-           | None => (s, ob 404 0 false 0)
-           | Some o =>
-               (* only the pre-published streams have a primed playlist: a stream published a moment ago
-                  answers 400 for the playlist (after waiting for segments) and 404 for any segment *)
-               if (kind =? 1) && negb (o =? 1) then (s, ob 400 0 false 0)
-               else if (kind =? 2) && (negb (o =? 1) || negb (seg_listed seq)) then (s, ob 404 0 false 0)
-               else (s, ob 200 0 true 0)
-           end
-  | EApi ep t u upd_pw name =>
-      let code := api_gate s ep t in
-      let s1 := if code =? 2 then
-                  (if ep =? EP_SAVE_USER then set_users s (save_user (users s) u upd_pw)
-                   else if ep =? EP_DEL_USER then set_users s (del_user (users s) name)
-                   else s)
-                else s in
-      (s1, ob code 0 false 0)
+  | ERtsp k m path cr => step_rtsp fixed watch s k m path cr
+  | EWsOpen kind path t chan => step_wsopen fixed s kind path t chan
+  | EWsRtsp k m path => step_wsrtsp fixed watch s k m path
+  | EWsp k m path => step_wsp fixed s k m
+  | EHttp kind path t seq => step_http fixed s kind path t seq
+  | EApi ep t u upd_pw name => step_api s ep t u upd_pw name
   end.
 
 Definition step := step_gen true.
